@@ -81,6 +81,7 @@ pub struct ChanModel {
     wakers: Vec<Arc<Hook>>, // index = waker id
     received: Vec<u32>,
     registered: u32,
+    nwk: usize,
 }
 
 impl ChanModel {
@@ -99,7 +100,8 @@ impl ChanModel {
                 Chan::Notif(vec![s], Box::pin(r))
             }
         };
-        ChanModel { ch, wakers: (0..4).map(|_| Hook::new()).collect(), received: vec![], registered: 0 }
+        let nwk = cfg["Wakers"].as_array().map(|a| a.len()).unwrap_or(2);
+        ChanModel { ch, wakers: (0..=nwk).map(|_| Hook::new()).collect(), received: vec![], registered: 0, nwk }
     }
 }
 
@@ -248,7 +250,7 @@ impl Model for ChanModel {
 
     fn project(&self) -> Value {
         // only what is observable from outside: wake-up counts per waker and the received values
-        let woken: Vec<u32> = (1..=2).map(|k| self.wakers[k].wakes.load(Ordering::SeqCst)).collect();
+        let woken: Vec<u32> = (1..=self.nwk).map(|k| self.wakers[k].wakes.load(Ordering::SeqCst)).collect();
         json!({"woken": woken, "received": self.received})
     }
 
@@ -267,6 +269,7 @@ pub struct CondModel {
     c: DcpsStatusCondition,
     waiters: Vec<Option<Pin<Box<NotificationReceiver>>>>,
     wakers: Vec<Arc<CountWaker>>,
+    nw: usize,
 }
 fn status(n: u64) -> StatusKind {
     match n {
@@ -283,7 +286,8 @@ impl CondModel {
     pub fn new(cfg: &Value) -> Self {
         let mut c = DcpsStatusCondition::default();
         c.set_enabled_statuses(mask(&cfg["InitEnabled"]));
-        CondModel { pcs: vec!["idle"; 4], c, waiters: (0..4).map(|_| None).collect(), wakers: (0..4).map(|_| Arc::new(CountWaker(AtomicU32::new(0)))).collect() }
+        let nw = cfg["Waiters"].as_array().map(|a| a.len()).unwrap_or(2);
+        CondModel { pcs: vec!["idle"; nw + 1], c, waiters: (0..=nw).map(|_| None).collect(), wakers: (0..=nw).map(|_| Arc::new(CountWaker(AtomicU32::new(0)))).collect(), nw }
     }
     /// observe (without losing it) which waiters have been released
     fn refresh(&mut self) {
@@ -316,7 +320,7 @@ impl Model for CondModel {
         r
     }
     fn project(&self) -> Value {
-        json!({"trigger": self.c.get_trigger_value(), "pc": [self.pcs[1], self.pcs[2]]})
+        json!({"trigger": self.c.get_trigger_value(), "pc": self.pcs[1..=self.nw].to_vec()})
     }
     fn compare_state(&self, expected: &Value, got: &Value) -> Option<String> {
         crate::replay::compare(&json!({"trigger": expected["trigger"], "pc": expected["pc"]}), got, "state")
